@@ -532,6 +532,19 @@ def run_shard(ctx, desc):
                 ctx.mark_nontrivial(case)
             ctx.sample({"op": "pattern", "tracks": case["tracks"], "lines": case["lines"], "via": case["via"], "first_cells": case["cells"][:3]})
 
+        # every kind of earlier use once with an image that is empty almost everywhere (and once with a full one)
+        for prior in [None, "read", "set_via_fn", "set_via_gen", "replace_cell", "other_image", "resized_wider", "resized_narrower", "resized_lines", "cells_moved"]:
+            for shape in ((1, 1), (2, 3), (3, 4)):
+                for fill in ("empty_but_one", "full"):
+                    n_ = shape[0] * shape[1]
+                    cells_ = [[0, 0, 0, 0, 0] for _ in range(n_)] if fill != "full" else [[1 + k_ % 100, 1 + k_ % 120, k_ + 1, 0x0101 + k_, 0x0203 + k_] for k_ in range(n_)]
+                    if fill != "full":
+                        cells_[-1] = [5, 6, 7, 8, 9]
+                    case = {"tracks": shape[0], "lines": shape[1], "cells": cells_, "via": "raw_data", "prior": prior}
+                    try:
+                        body(case)
+                    except PropertyViolation as v:
+                        ctx.check(False, v.sub_oracle, "after %s: %s" % (prior, v.detail), key=v.key, recipe={"case": case})
         run_property(ctx, pattern_case(), body, desc["examples"], tag="patterns")
 
 
